@@ -29,13 +29,13 @@ def obligations(tier, seed):
     def o(i, fn, clause):
         return {"id": i, "function": fn, "clause": clause, "properties": ["C15"], "bounded_by": b, "complete_over": "the enumerated family x all enumerated assignments"}
     return [
-        o("mul", "ir::Expr::mul", "value(a.mul(b)) == value(a) * value(b) (mod 2^bits)"),
+        o("mul", "ir::Expr::mul", "value(a.mul(b)) == value(a) * value(b) (mod 2^bits); like terms stay collected in the result and its normalisation (at most one part is a given plain variable: the precondition of the proved inc_of / prod_inc_of)"),
         o("neg", "ir::Expr::neg", "value(a.neg()) == -value(a)"),
         o("half", "ir::Expr::half", "half() == Some(h) ==> 2 * value(h) == value(a); None only if some coefficient is odd"),
         o("normalize", "ir::Expr::normalize", "value(a.normalize()) == value(a)"),
-        o("symb_evaluate", "ir::Expr::{symb_evaluate, mul_parts}", "value of the substitution result == value(a) under the assignment obtained by evaluating the substituted expressions"),
+        o("symb_evaluate", "ir::Expr::{symb_evaluate, mul_parts}", "value of the substitution result == value(a) under the assignment obtained by evaluating the substituted expressions; like terms stay collected"),
         o("inc_of", "ir::Expr::inc_of", "inc_of(x) == Some(r) ==> value(a) == rho(x) + value(r)"),
         o("prod_inc_of", "ir::Expr::prod_inc_of", "prod_inc_of(x) == Some((r, m)) ==> value(a) == m * rho(x) + value(r)"),
         o("prod_of", "ir::Expr::prod_of", "prod_of(x) == Some(r) ==> value(a) == rho(x) * value(r)"),
-        o("add_sorted", "ir::Expr::add (on the results of mul / normalize, which may be unsorted)", "value(a.add(b)) == value(a) + value(b) also for operands produced by mul and normalize"),
+        o("add_sorted", "ir::Expr::add (on the results of mul / normalize, which may be unsorted)", "value(a.add(b)) == value(a) + value(b) also for operands produced by mul and normalize; like terms stay collected"),
     ]
